@@ -17,7 +17,7 @@ use vh::wire::{self, Fti};
 #[global_allocator]
 static GLOBAL: alloc::Counting = alloc::Counting;
 
-const CLASSES: [&str; 8] = ["tiny", "short", "subst", "field_fti", "field_fti_any", "field_misc", "fdtxml", "sequence"];
+const CLASSES: [&str; 9] = ["tiny", "short", "subst", "field_fti", "field_fti_any", "field_misc", "fdtxml", "fdt_oti", "sequence"];
 
 struct World {
     seed: u64,
@@ -37,6 +37,7 @@ fn class_size(w: &World, class: &str) -> u64 {
         "field_fti_any" => w.corpus.len() as u64 * fti_any_per(w),
         "field_misc" => w.corpus.len() as u64 * MISC_EDITS,
         "fdtxml" => w.corpus.len() as u64 * if w.thorough { 1200 } else { 40 },
+        "fdt_oti" => if w.thorough { 120_000 } else { 2400 },
         "sequence" => if w.thorough { 1_500_000 } else { 6000 },
         _ => 0,
     }
@@ -453,6 +454,64 @@ fn gen_seq(w: &World, class: &str, k: u64) -> Option<(Value, u64, Vec<Vec<u8>>)>
             }
             Some((json!({"class": "field_misc", "session": c.name, "edit": what}), c.em.spec.tsi, seq))
         }
+        // FEC OTI delivered by the FDT only (attributes at instance or File level, extremes of every field and of the
+        // base64 scheme-specific info) for EVERY scheme id, followed by object packets of that codepoint without EXT_FTI
+        "fdt_oti" => {
+            use base64::Engine;
+            let fec = [0u8, 1, 2, 5, 6, 129][(k % 6) as usize];
+            let e = *rng.pick(&[0u64, 1, 4, 16, 1400, 65535, 65536]);
+            let b = *rng.pick(&[0u64, 1, 2, 4, 255, 256, 8192, 65535, 65536, u32::MAX as u64, 1 << 40]);
+            let max_n = *rng.pick(&[0u64, 1, b.saturating_sub(1), b, b.saturating_add(1), 255, 65535, u32::MAX as u64]);
+            let l = *rng.pick(&[0u64, 1, 100, 65535, 1 << 20, 1 << 32, (1u64 << 48) - 1, u64::MAX]);
+            let ssi: Option<Vec<u8>> = match rng.below(6) {
+                0 => None,
+                1 => Some(vec![]),
+                2 => {
+                    let n = rng.range(1, 7) as usize;
+                    Some(rng.bytes(n))
+                }
+                _ => Some(match fec {
+                    2 => vec![*rng.pick(&[0u8, 1, 2, 8, 16, 31, 32, 33, 64, 200, 255]), *rng.pick(&[0u8, 1, 2, 255])],
+                    6 => vec![*rng.pick(&[0u8, 1, 2, 255]), 0, *rng.pick(&[0u8, 1, 255]), *rng.pick(&[0u8, 1, 3, 4, 8, 255])],
+                    1 => vec![*rng.pick(&[0u8, 255]), *rng.pick(&[0u8, 1, 2, 255]), *rng.pick(&[0u8, 1, 255]), *rng.pick(&[0u8, 1, 3, 4, 255])],
+                    _ => rng.bytes(2),
+                }),
+            };
+            let mut attrs = format!(" FEC-OTI-FEC-Encoding-ID=\"{}\" FEC-OTI-Encoding-Symbol-Length=\"{}\" FEC-OTI-Maximum-Source-Block-Length=\"{}\"", fec, e, b);
+            if rng.chance(3, 4) {
+                attrs.push_str(&format!(" FEC-OTI-Max-Number-of-Encoding-Symbols=\"{}\"", max_n));
+            }
+            if rng.chance(1, 3) {
+                attrs.push_str(&format!(" FEC-OTI-FEC-Instance-ID=\"{}\"", rng.pick(&[0u64, 1, 65535, 65536])));
+            }
+            if let Some(x) = &ssi {
+                attrs.push_str(&format!(" FEC-OTI-Scheme-Specific-Info=\"{}\"", base64::engine::general_purpose::STANDARD.encode(x)));
+            }
+            let at_file = rng.chance(1, 2);
+            let tsi = 77u64;
+            let toi = 9u128;
+            let tl = if rng.chance(1, 4) { String::new() } else { format!(" Transfer-Length=\"{}\"", l) };
+            let xml = format!("<?xml version=\"1.0\"?><FDT-Instance xmlns=\"urn:IETF:metadata:2005:FLUTE:FDT\" Expires=\"{}\"{}><File TOI=\"{}\" Content-Location=\"file:///h/o\" Content-Length=\"{}\"{}{}/></FDT-Instance>",
+                expires_in(3600), if at_file { "" } else { attrs.as_str() }, toi, l, tl, if at_file { attrs.as_str() } else { "" });
+            let mut seq = wrap_fdt(xml.as_bytes(), tsi, 4000 + (k % 1000) as u32, 1400, None, rng.chance(1, 2));
+            let m = ssi.as_ref().and_then(|x| x.first().copied()).unwrap_or(8);
+            let psize = (e as usize).clamp(0, 1400);
+            let payload = rng.bytes(psize.max(1));
+            let mut objs = vec![];
+            for (sbn, esi) in [(0u32, 0u32), (0, 1), (1, 0), (0, b.min(70000) as u32), (255, 255), (65535, 1), (0, 0)] {
+                let lct = wire::enc_lct(tsi, toi, fec);
+                let sz = if rng.chance(1, 5) { rng.range(0, payload.len() as u64) as usize } else { payload.len() };
+                objs.push(wire::encode(&lct, &[], &wire::payload_id(fec, sbn, esi, b.min(65535) as u16, m), &payload[..sz]));
+            }
+            if rng.chance(1, 4) {
+                let mut s2 = objs.clone();
+                s2.extend(seq);
+                seq = s2;
+            } else {
+                seq.extend(objs);
+            }
+            Some((json!({"class": "fdt_oti", "fec": fec, "attrs": attrs, "at_file_level": at_file, "L": l}), tsi, seq))
+        }
         "fdtxml" => {
             let per = if w.thorough { 1200 } else { 40 };
             let c = &w.corpus[(k / per) as usize];
@@ -744,7 +803,7 @@ fn main() {
     let prop = Property {
         id: "C04",
         level: "exploration",
-        rule: "hostile packet sequences in crash-isolated children: (tiny) every byte string of length <= 3; (short) enumerated first-word combinations at lengths 4..40; (subst) every single-byte substitution over the header region of corpus packets (8 representative values quick / all 255 thorough); (field_fti) per-scheme EXT_FTI extremes on object packets, FDT first and object first; (field_fti_any) EXT_FTI extremes of every scheme id incl. FEC 2 with its m/G word, codepoint and payload id rewritten to match, on the FDT packets or on the object packets; (field_misc) payload-id, payload-size, codepoint, flag, HDR_LEN, HEL, EXT_FDT, EXT_TIME, EXT_CENC, FDT-FTI, TOI-class edits through the independent encoder; (fdtxml) FDT XML attribute rewriting / truncation / duplication / nesting / entities / noise wrapped into FDT packets; (sequence) seeded flip/truncate/extend/splice/repeat/drop/swap sequences over whole sessions. Each sequence is followed by two probe sessions. Oracle: every push returns, no panic, no step-budget trip, per-call heap growth <= 48 MiB with a 1 MiB cache, no single request > 256 MiB, probes delivered. A case is one shard of one class; distinct = shards that executed pushes; monitor states = distinct error-message kinds reached",
+        rule: "hostile packet sequences in crash-isolated children: (tiny) every byte string of length <= 3; (short) enumerated first-word combinations at lengths 4..40; (subst) every single-byte substitution over the header region of corpus packets (8 representative values quick / all 255 thorough); (field_fti) per-scheme EXT_FTI extremes on object packets, FDT first and object first; (field_fti_any) EXT_FTI extremes of every scheme id incl. FEC 2 with its m/G word, codepoint and payload id rewritten to match, on the FDT packets or on the object packets; (field_misc) payload-id, payload-size, codepoint, flag, HDR_LEN, HEL, EXT_FDT, EXT_TIME, EXT_CENC, FDT-FTI, TOI-class edits through the independent encoder; (fdt_oti) FEC OTI delivered by the FDT only - extremes of every FEC-OTI attribute and of the base64 scheme-specific info for every scheme id, at instance or File level - followed by object packets of that codepoint without EXT_FTI; (fdtxml) FDT XML attribute rewriting / truncation / duplication / nesting / entities / noise wrapped into FDT packets; (sequence) seeded flip/truncate/extend/splice/repeat/drop/swap sequences over whole sessions. Each sequence is followed by two probe sessions. Oracle: every push returns, no panic, no step-budget trip, per-call heap growth <= 48 MiB with a 1 MiB cache, no single request > 256 MiB, probes delivered. A case is one shard of one class; distinct = shards that executed pushes; monitor states = distinct error-message kinds reached",
         assumptions: vec![
             "probe sessions use a TOI, FDT instance id and TSI that the hostile sequence did not use".into(),
             "allocation numbers come from the harness's counting allocator in a single-threaded child; the monitoring writer keeps at most 4 KiB per writer".into(),
